@@ -48,32 +48,43 @@ Proof.
   - destruct (keyl_eqb k' k2); auto.
 Qed.
 
+(* a Term-keyed dict filled row by row: with pairwise distinct terms, the key of row i is bound to the i-th value *)
+Lemma table_get {V} : forall (rows : list srow) (rg : list V) (d : list (list sstr * V)) i r,
+  NoDup (map (fun r => tkey (r_factors r)) rows) -> nth_error rows i = Some r -> length rg = length rows ->
+  tdget (tkey (r_factors r)) (fold_left (fun d p => tdset (tkey (r_factors (fst p))) (snd p) d) (combine rows rg) d) = nth_error rg i.
+Proof.
+  induction rows as [|r0 rs IH]; intros rg d i r Hnd Hi Hl; [destruct i; discriminate|].
+  destruct rg as [|g gs]; [discriminate|]. cbn [combine fold_left fst snd].
+  cbn in Hnd. inversion Hnd as [|? ? Hnotin Hnd']; subst.
+  destruct i as [|i]; cbn in Hi.
+  - inversion Hi; subst. cbn [nth_error].
+    (* later rows have different keys: the binding survives *)
+    assert (K : forall (rs : list srow) (gs : list V) (d : list (list sstr * V)), ~ In (tkey (r_factors r)) (map (fun r => tkey (r_factors r)) rs) ->
+                tdget (tkey (r_factors r)) (fold_left (fun d p => tdset (tkey (r_factors (fst p))) (snd p) d) (combine rs gs) d)
+                = tdget (tkey (r_factors r)) d).
+    { clear. induction rs as [|r1 rs IH]; intros gs d Hn; [reflexivity|]. destruct gs as [|g1 gs]; [reflexivity|].
+      cbn [combine fold_left fst snd]. rewrite IH by (intro Hc; apply Hn; right; exact Hc).
+      apply tdget_tdset_other. destruct (keyl_eqb (tkey (r_factors r)) (tkey (r_factors r1))) eqn:E; auto.
+      apply keyl_eqb_eq in E. exfalso. apply Hn. left. symmetry. exact E. }
+    rewrite K by exact Hnotin. apply tdget_tdset_same.
+  - cbn [nth_error]. apply IH; auto.
+Qed.
+(* a key no row carries is not bound *)
+Lemma table_get_none {V} k : forall (rows : list srow) (rg : list V) (d : list (list sstr * V)),
+  ~ In k (map (fun r => tkey (r_factors r)) rows) -> tdget k (fold_left (fun d p => tdset (tkey (r_factors (fst p))) (snd p) d) (combine rows rg) d) = tdget k d.
+Proof.
+  induction rows as [|r1 rs IH]; intros gs d Hn; [reflexivity|]. destruct gs as [|g1 gs]; [reflexivity|].
+  cbn [combine fold_left fst snd]. rewrite IH by (intro Hc; apply Hn; right; exact Hc).
+  apply tdget_tdset_other. destruct (keyl_eqb k (tkey (r_factors r1))) eqn:E; auto.
+  apply keyl_eqb_eq in E. exfalso. apply Hn. left. symmetry. exact E.
+Qed.
 (* with pairwise distinct terms, each term is mapped to the range of its own row *)
 Theorem lookup_term_exact rows : forall i r,
   NoDup (map (fun r => tkey (r_factors r)) rows) -> nth_error rows i = Some r ->
   lookup_term rows (r_factors r) =
   nth_error (ranges (map (fun r => length (r_cols r)) rows) 0) i.
 Proof.
-  unfold lookup_term, term_indices.
-  assert (G : forall (rows : list srow) (rg : list (list nat)) (d : list (list sstr * list nat)) i r,
-             NoDup (map (fun r => tkey (r_factors r)) rows) -> nth_error rows i = Some r -> length rg = length rows ->
-             tdget (tkey (r_factors r)) (fold_left (fun d p => tdset (tkey (r_factors (fst p))) (snd p) d) (combine rows rg) d) = nth_error rg i).
-  { clear. induction rows as [|r0 rs IH]; intros rg d i r Hnd Hi Hl; [destruct i; discriminate|].
-    destruct rg as [|g gs]; [discriminate|]. cbn [combine fold_left fst snd].
-    cbn in Hnd. inversion Hnd as [|? ? Hnotin Hnd']; subst.
-    destruct i as [|i]; cbn in Hi.
-    - inversion Hi; subst. cbn [nth_error].
-      (* later rows have different keys: the binding survives *)
-      assert (K : forall (rs : list srow) (gs : list (list nat)) (d : list (list sstr * list nat)), ~ In (tkey (r_factors r)) (map (fun r => tkey (r_factors r)) rs) ->
-                  tdget (tkey (r_factors r)) (fold_left (fun d p => tdset (tkey (r_factors (fst p))) (snd p) d) (combine rs gs) d)
-                  = tdget (tkey (r_factors r)) d).
-      { clear. induction rs as [|r1 rs IH]; intros gs d Hn; [reflexivity|]. destruct gs as [|g1 gs]; [reflexivity|].
-        cbn [combine fold_left fst snd]. rewrite IH by (intro Hc; apply Hn; right; exact Hc).
-        apply tdget_tdset_other. destruct (keyl_eqb (tkey (r_factors r)) (tkey (r_factors r1))) eqn:E; auto.
-        apply keyl_eqb_eq in E. exfalso. apply Hn. left. symmetry. exact E. }
-      rewrite K by exact Hnotin. apply tdget_tdset_same.
-    - cbn [nth_error]. apply IH; auto. }
-  intros i r Hnd Hi. apply G; auto. rewrite ranges_length, map_length. reflexivity.
+  unfold lookup_term, term_indices. intros i r Hnd Hi. apply table_get; auto. rewrite ranges_length, map_length. reflexivity.
 Qed.
 
 (* a column name selects its own position (names pairwise distinct) *)
